@@ -1139,6 +1139,13 @@ def tool_level(ctx, stats):
                            # 0: seeded delays (completion order); 1: the worker that takes the first block is held back, the others
                            # compress what follows; 2: round robin, consecutive blocks go to different workers
                            "C02_PERTURB_MODE": str(k % 3), "C02_PERTURB_FIRST_MS": str(rng.choice([20, 60]))}
+                    # LANG / LC_COLLATE / LC_CTYPE vary as well; every fourth run has no LC_ALL, so that they are what counts (no draw from
+                    # rng: the cases of a seed stay what they were)
+                    env["LANG"] = ["C", "tr_TR.UTF-8", "en_US.UTF-8", "de_DE.ISO-8859-1"][k % 4]
+                    env["LC_COLLATE"] = ["en_US.UTF-8", "C", "cs_CZ.UTF-8"][k % 3]
+                    env["LC_CTYPE"] = ["tr_TR.ISO-8859-9", "C.UTF-8"][k % 2]
+                    if k % 4 == 3:
+                        env["LC_ALL"] = ""
                     umask = rng.choice(ENV_CHOICES["umask"])
                     cwd = rng.choice([str(ctx.scratch), "/", str(inp["dir"])])
                     prefix = []
@@ -1376,7 +1383,7 @@ def tool_level(ctx, stats):
         "clock_shim_scope": "time, gettimeofday, clock_gettime(CLOCK_REALTIME/_COARSE/TAI), timespec_get, ftime; a raw syscall or a direct vDSO "
                             "call is not intercepted (the packers contain neither)",
         "source_date_epoch_cases": stats.get("sde_cases", 0),
-        "environment": "TZ x LC_ALL x umask x cwd x CPU affinity (taskset) x faked clock (LD_PRELOAD) x SOURCE_DATE_EPOCH fixed",
+        "environment": "TZ x LC_ALL (set / empty) x LANG x LC_COLLATE x LC_CTYPE x umask x cwd x CPU affinity (taskset) x faked clock (LD_PRELOAD) x SOURCE_DATE_EPOCH fixed",
         "wall_s": round(time.time() - t0, 1)}
     stats["evaluations"] += runs
     stats["disagreements"] += bad + tsan_reports + sde_bad
